@@ -230,8 +230,15 @@ def callable_bindings(fn):
 
 def calls_of(fn, name):
     """every call `name(...)` in fn, including inside lambdas and nested local defs (closures see the binding)."""
-    return [c for c in au.walk(fn, into_funcs=True)
-            if isinstance(c, ast.Call) and isinstance(c.func, ast.Name) and c.func.id == name]
+    out = [c for c in au.walk(fn, into_funcs=True)
+           if isinstance(c, ast.Call) and isinstance(c.func, ast.Name) and c.func.id == name]
+    # `key=name` of sort / sorted / min / max calls the callable with one positional argument
+    for c in au.walk(fn, into_funcs=True):
+        if isinstance(c, ast.Call) and au.call_tail(c) in ("sort", "sorted", "min", "max"):
+            for kw in c.keywords:
+                if kw.arg == "key" and isinstance(kw.value, ast.Name) and kw.value.id == name:
+                    out.append(ast.Call(func=ast.Name(id=name, ctx=ast.Load()), args=[ast.Name(id="<item>", ctx=ast.Load())], keywords=[]))
+    return out
 
 
 def arity_agreement(ctx, rule, modname, fn, min_names=1):
